@@ -1,7 +1,7 @@
 (* C16/Props.v — property theorems only.  bcrypt verification and the salted hash of the
    cache are universally quantified functions; the only hypothesis is that the salted hash
    determines the password (collision freedom on the explored domain). *)
-From Verif Require Import Lib.Bytes C16.Model C16.Spec C16.Proofs C16.Run C16.Link.
+From Verif Require Import Lib.Bytes C16.Model C16.Spec C16.Proofs C16.Reads C16.Run C16.Link C16.ReadsProofs.
 Open Scope N_scope.
 
 Definition salted_injective (salted : str -> str -> str) : Prop :=
@@ -284,7 +284,80 @@ Theorem strict_clause_fails_only_on_bootstrap_trailing :
 Proof. split; [exact req_strict_fails_iff|exact authz_strict_fails_iff]. Qed.
 Print Assumptions strict_clause_fails_only_on_bootstrap_trailing.
 
+(* ---------- the databases a SHOW statement reads ---------- *)
+
+(* For EVERY non-/administrator user record, default database, statement of the SHOW family (ten
+   statement kinds, any ON clause incl. the *.* wildcard, EXACT or not, any list of sources with or
+   without their own database) and set of existing databases: if the authoriser's privilege loop
+   accepts the list checked for the statement (library privileges + showReadPrivileges), then every
+   database whose shards or index the execution reads (rewrite into a SELECT over the sources,
+   default-database normalisation, TAG KEYS/TAG VALUES/MEASUREMENTS executors, cardinality
+   estimation, ON *.* filtered by the coarse authoriser) is one the user may READ. *)
+Theorem show_reads_only_checked_databases :
+  forall ui reqdb s all d,
+    check_privs ui reqdb (show_privs true s) = QOk ->
+    In d (show_reads true (Some ui) s reqdb all) ->
+    authorize_database ui ReadPrivilege d = true.
+Proof. exact show_reads_covered. Qed.
+Print Assumptions show_reads_only_checked_databases.
+
+(* The same through the HTTP handler after any history of user/grant/password changes, snapshots
+   and authentications, for every credential carrier: a database is read only if the request
+   CARRIES a credential valid for an existing user who may READ that database. *)
+Theorem exec_reads_only_authorized_databases :
+  forall bcrypt_ok salted, salted_injective salted ->
+  forall es secret salt cr s db st reads c' d,
+    handle_dbread bcrypt_ok salted true true secret (node_after bcrypt_ok salted es) salt cr s db = ((st, reads), c') ->
+    In d reads ->
+    exists cd ui, In cd (carried cr) /\
+                  cred_valid bcrypt_ok (c_users (node_after bcrypt_ok salted es)) secret cd = Some ui /\
+                  authorize_database ui ReadPrivilege d = true.
+Proof. intros b s H. exact (exec_reads_authorized b s H). Qed.
+Print Assumptions exec_reads_only_authorized_databases.
+
+(* The pinned rule (library privileges only, ON *.* unfiltered) is refuted: a user holding READ on
+   "pub" only is authorised for, and the execution reads "secret" in,
+     SHOW FIELD KEYS ON pub FROM secret..cpu            (source database not checked)
+     SHOW SERIES CARDINALITY ON pub FROM secret..cpu    (idem, cardinality forms)
+     SHOW TAG KEY CARDINALITY ON secret                 (no source: no privilege required at all)
+     SHOW MEASUREMENTS ON *.*                           (every database listed)
+   All four were replayed on the real code (corpus/C16.jsonl) and repaired by two "fix:" commits. *)
+Theorem exec_reads_only_authorized_databases_refuted :
+  exists ui reqdb s all d,
+    check_privs ui reqdb (show_privs false s) = QOk /\
+    In d (show_reads false (Some ui) s reqdb all) /\
+    authorize_database ui ReadPrivilege d = false.
+Proof. exact pinned_rule_refuted. Qed.
+Print Assumptions exec_reads_only_authorized_databases_refuted.
+
+Theorem pinned_show_leaks :
+  pinned_leak (mkShow KFieldKeys w_pub 0 false false [w_secret]) /\
+    pinned_leak (mkShow KSeriesCard w_pub 0 false false [w_secret]) /\
+    pinned_leak (mkShow KTagKeyCard w_secret 0 false false []) /\
+    pinned_leak (mkShow KMeasurements [] 1 false false []).
+Proof. exact pinned_show_leaks_all. Qed.
+Print Assumptions pinned_show_leaks.
+
+Theorem model_satisfies_spec_dbread :
+  forall bc users dbs secret cr s db,
+    dbread_obs_ok (bc_ok bc) users secret cr
+      (snd (fst (handle_dbread (bc_ok bc) salted_id true true secret (swap client0 (mkM users dbs)) salt0 cr s db))) = true.
+Proof. exact link_dbread. Qed.
+Print Assumptions model_satisfies_spec_dbread.
+
 (* ---------- non-vacuity ---------- *)
+
+(* a reader of "pub" and "secret" is authorised for SHOW FIELD KEYS ON pub FROM secret..cpu, pub..cpu
+   and the execution reads exactly these two; the reader of "pub" alone is refused, and
+   SHOW MEASUREMENTS ON *.* shows him "pub" only *)
+Example show_reads_nonvacuous :
+  let both := mkUser [98] 0 false [(w_pub, 1); (w_secret, 1)] in
+  let s := mkShow KFieldKeys w_pub 0 false false [w_secret; w_pub] in
+  check_privs both w_pub (show_privs true s) = QOk /\
+    show_reads true (Some both) s w_pub [w_pub; w_secret] = [w_secret; w_pub] /\
+    check_privs w_bob w_pub (show_privs true s) = QErrPriv /\
+    show_reads true (Some w_bob) (mkShow KMeasurements [] 1 false false []) w_pub [w_pub; w_secret] = [w_pub].
+Proof. vm_compute. repeat split. Qed.
 
 (* a reader of db0 with the right password over basic auth runs SELECT on the default database;
    the same request needing WRITE is refused, as is a wrong password *)
